@@ -145,6 +145,8 @@ pub struct SysRecord {
     pub observing: u64,
     pub failed_by_shim: u64,
     pub loghash: u64,
+    /// mutating calls that the operating system itself refused (nothing injected)
+    pub real_failures: u64,
     /// libc entry point the fault hit ("write", "unlinkat", ...)
     pub fired_what: String,
     pub log: String,
@@ -180,7 +182,7 @@ pub fn disarm() -> SysRecord {
     let log = String::from_utf8_lossy(&buf[..n]).to_string();
     let n = unsafe { (api.fired_what)(buf.as_mut_ptr() as *mut c_char, buf.len()) };
     let fired_what = String::from_utf8_lossy(&buf[..n]).to_string();
-    SysRecord { calls: out[0] as u64, fired: out[1] != 0, mutating: out[2] as u64, observing: out[3] as u64, failed_by_shim: out[4] as u64, loghash: out[5] as u64, fired_what, log }
+    SysRecord { calls: out[0] as u64, fired: out[1] != 0, mutating: out[2] as u64, observing: out[3] as u64, failed_by_shim: out[4] as u64, loghash: out[5] as u64, real_failures: out[7] as u64, fired_what, log }
 }
 
 /// Annotates the call log with the file-system operation the writer is about to perform.
